@@ -236,6 +236,10 @@ func typeDecls(c *spec.Case, pkgKey string) string {
 			if t.NoHash {
 				fmt.Fprintf(&sb, "type %s struct {\n", t.Name)
 				for _, f := range t.Fields {
+					if f.Tag != "" {
+						fmt.Fprintf(&sb, "\t%s %s `%s`\n", f.Name, c.Expr(f.Type, pkgKey), f.Tag)
+						continue
+					}
 					fmt.Fprintf(&sb, "\t%s %s\n", f.Name, c.Expr(f.Type, pkgKey))
 				}
 				sb.WriteString("}\n\n")
